@@ -266,6 +266,84 @@ def _anc(n):
 ALWAYS = {"Input", "Output"}  # appended for every register by CircuitDAG._add_register
 
 
+def rule_metric_arith(ctx: Ctx) -> None:
+    """metric.arith: the arithmetic of the count and interval metrics, as linear forms.  (a) a count metric is the number of nodes
+    returned by its label query, 0 when the label is absent, accumulated by addition from 0; a guard in front of a query is a membership
+    test (`in`).  (b) the reset / effective-depth metrics take the differences of *consecutive* cut points, later minus earlier, over all
+    consecutive pairs (j = 0 .. len - 2), and report the maximum."""
+    from .. import linear
+    repo = ctx.repo
+    m = repo.module(METRICS)
+    # (a) counts
+    for cname in ("CircuitCnotCount", "CircuitUnitaryCount", "CircuitMeasureCount"):
+        ci = repo.cls(cname, METRICS)
+        ev = ci.methods().get("evaluate")
+        if ev is None:
+            continue
+        ctx.touch(m, ev)
+        pen = [c for c in calls_in(ev) if isinstance(c.func, ast.Attribute) and "penalty" in c.func.attr and norm(c.func.value) == "self" and c.args]
+        if len(pen) != 1 or not isinstance(pen[0].args[0], ast.Name):
+            raise AnalysisError(f"{cname}.evaluate: penalty(<count>) not found")
+        cv = pen[0].args[0].id
+        bad = []
+        for a in ast.walk(ev):
+            if isinstance(a, ast.Assign) and len(a.targets) == 1 and norm(a.targets[0]) == cv:
+                v = a.value
+                if isinstance(v, ast.Constant):
+                    if v.value != 0:
+                        bad.append((a, f"the count starts / defaults to {v.value!r} instead of 0"))
+                elif not (isinstance(v, ast.Call) and call_name(v) == "len" and any(call_attr(x) in ("get_node_by_labels", "get_node_exclude_labels") for x in ast.walk(v) if isinstance(x, ast.Call))):
+                    bad.append((a, f"the count is `{short(v)}`, not the length of a label query"))
+            if isinstance(a, ast.AugAssign) and norm(a.target) == cv:
+                if not isinstance(a.op, ast.Add) or not (isinstance(a.value, ast.Call) and call_name(a.value) == "len"):
+                    bad.append((a, f"`{short(a)}` does not add the length of a label query"))
+        for i_ in [x for x in ast.walk(ev) if isinstance(x, ast.If)]:
+            for t in ast.walk(i_.test):
+                if isinstance(t, ast.Compare) and "node_dict" in norm(t) and len(t.ops) == 1 and not isinstance(t.ops[0], ast.In):
+                    if any(call_attr(c) in ("get_node_by_labels",) for c in calls_in(i_) if any(c is y for b_ in i_.body for y in ast.walk(b_))):
+                        bad.append((t, f"the query is guarded by `{short(t)}`: it runs exactly when the label is *absent*"))
+        if bad:
+            for node, why in bad:
+                ctx.fail("metric.arith", m, node, f"{cname}.evaluate: {why}", func=f"{cname}.evaluate", construct=f"{cname}: {why[:60]}")
+        else:
+            ctx.ok("metric.arith", m, pen[0], what=f"{cname}: count = sum of label-query lengths from 0")
+    # (b) intervals
+    for cname in ("CircuitMaxEmitResetDepth", "CircuitMaxEmitEffDepth"):
+        ci = repo.cls(cname, METRICS)
+        ev = ci.methods().get("evaluate")
+        ctx.touch(m, ev)
+        comps = [c for c in ast.walk(ev) if isinstance(c, ast.ListComp) and isinstance(c.elt, ast.BinOp) and isinstance(c.elt.op, ast.Sub)
+                 and isinstance(c.elt.left, ast.Subscript) and isinstance(c.elt.right, ast.Subscript)]
+        if len(comps) != 1:
+            raise AnalysisError(f"{cname}.evaluate: the list of consecutive differences was not found")
+        c = comps[0]
+        g = c.generators[0]
+        jv = norm(g.target)
+        L, R = c.elt.left, c.elt.right
+        why = []
+        if norm(L.value) != norm(R.value):
+            why.append(f"the difference mixes two lists (`{short(c.elt)}`)")
+        li, ri = linear.lin(L.slice), linear.lin(R.slice)
+        if li is None or ri is None or linear.clean(linear.sub(li, ri)) != {"": 1} or li.get(jv, 0) != 1:
+            why.append(f"`{short(c.elt)}` is not (entry j + 1) - (entry j)")
+        it = g.iter
+        okr = False
+        if isinstance(it, ast.Call) and call_name(it) == "range" and len(it.args) == 1:
+            b = it.args[0]
+            okr = isinstance(b, ast.BinOp) and isinstance(b.op, ast.Sub) and isinstance(b.right, ast.Constant) and b.right.value == 1 \
+                and isinstance(b.left, ast.Call) and call_name(b.left) == "len" and len(b.left.args) == 1
+        if not okr:
+            why.append(f"the pairs run over `{short(it)}` instead of range(len(<cut points>) - 1)")
+        tgt = next((norm(a.targets[0]) for a in ast.walk(ev) if isinstance(a, ast.Assign) and a.value is c), None)
+        mx = [x for x in calls_in(ev) if call_name(x) in ("max", "np.max") and x.args and tgt is not None and norm(x.args[0]) == tgt]
+        if not mx:
+            why.append("the metric is not the maximum of these differences")
+        if why:
+            ctx.fail("metric.arith", m, c, f"{cname}.evaluate: " + "; ".join(why), func=f"{cname}.evaluate", construct=f"{cname}: interval arithmetic")
+        else:
+            ctx.ok("metric.arith", m, c, what=f"{cname}: max of consecutive differences over all pairs")
+
+
 def rule_wire_walk(ctx: Ctx) -> None:
     """wire.follow-edge: reg_gate_history walks one register's wire from `<reg>_in` to `<reg>_out`.  The next gate on a wire is the head of the
     out-edge that *carries that register* (edge data reg / reg_type, or the edge key): two consecutive gates may be joined by several
@@ -526,6 +604,7 @@ def run(ctx: Ctx) -> None:
     rule_guarded_lookup(ctx)
     rule_label_intersection(ctx)
     rule_wire_walk(ctx)
+    rule_metric_arith(ctx)
     rule_metric_copies(ctx)
     shapes.rule_metric_source(ctx)
     shapes.rule_reset_points(ctx)
@@ -556,6 +635,9 @@ def _bfs_depth(src: str) -> str:
 
 
 KNOCKOUTS = [
+    Knockout("reset-intervals-skip-last-pair", METRICS, sub_once("                m_list[j + 1] - m_list[j] for j in range(len(m_list) - 1)", "                m_list[j + 1] - m_list[j] for j in range(len(m_list) - 2)"), "metric.arith", "CircuitMaxEmitResetDepth"),
+    Knockout("eff-depth-difference-reversed", METRICS, sub_once("                node_depth_list[j + 1] - node_depth_list[j]", "                node_depth_list[j] - node_depth_list[j + 1]"), "metric.arith", "CircuitMaxEmitEffDepth"),
+    Knockout("cnot-count-default-one", METRICS, sub_once("        else:\n            n = 0\n        val = self.n_cnot_penalty(n)", "        else:\n            n = 1\n        val = self.n_cnot_penalty(n)"), "metric.arith", "CircuitCnotCount"),
     Knockout("gate-history-through-successors", DAG, sub_once('            next_node = [\n                edge[1]\n                for edge in self.dag.out_edges(next_node, data=True)\n                if edge[2]["reg"] == reg and edge[2]["reg_type"] == reg_type\n            ][0]\n', '            next_node = next(n_ for n_ in self.dag.successors(next_node) if (reg, reg_type) in zip(self.dag.nodes[n_]["op"].q_registers, self.dag.nodes[n_]["op"].q_registers_type))\n'), "wire.follow-edge", "successors"),
     Knockout("gate-history-ignores-register-type", DAG, sub_once('                if edge[2]["reg"] == reg and edge[2]["reg_type"] == reg_type\n            ][0]', '                if edge[2]["reg"] == reg\n            ][0]'), "wire.follow-edge", "without (reg, reg_type)"),
     Knockout("label-query-ignores-absent-labels", DAG, sub_once("        remaining_nodes = set(self.dag.nodes)\n        for label in labels:\n            remaining_nodes = remaining_nodes.intersection(\n                set(self.node_dict.get(label, []))\n            )\n        return list(remaining_nodes)\n", "        node_lists = [self.node_dict[label] for label in labels if label in self.node_dict]\n        if not node_lists:\n            return []\n        return list(set(node_lists[0]).intersection(*node_lists[1:]))\n"), "label.all-of", "absent labels ignored"),
